@@ -2,6 +2,7 @@ CONSTANTS
   Ops <- MCCmpOnly
   Pool <- MCPool
   Triples = TRUE
+  Dev <- MCDev
 SPECIFICATION Spec
 INVARIANT TypeOK
 INVARIANT Transitive
